@@ -267,6 +267,10 @@ func (e *Exec) visitInstr(fr *frame, instr ssa.Instruction) continuation {
 	case *ssa.Send:
 		e.chanSend(fr.get(instr.Chan).(*Chan), fr.get(instr.X))
 	case *ssa.Store:
+		if sp, ok := fr.get(instr.Addr).(*symPtr); ok {
+			e.symStore(sp, fr.get(instr.Val))
+			break
+		}
 		e.store(fr.get(instr.Addr).(*Value), fr.get(instr.Val))
 	case *ssa.If:
 		cond := fr.get(instr.Cond).(*smt.Term)
@@ -334,6 +338,10 @@ func (e *Exec) visitInstr(fr *frame, instr ssa.Instruction) continuation {
 		idx := fr.get(instr.Index).(*smt.Term)
 		switch x := x.(type) {
 		case Slice:
+			if sp := e.symElemPtr(instr, x.A, idx); sp != nil {
+				fr.env[instr] = sp
+				break
+			}
 			i := e.indexIn(idx, instr.Index.Type(), len(x.A))
 			fr.env[instr] = &x.A[i]
 		case *Value:
@@ -341,6 +349,10 @@ func (e *Exec) visitInstr(fr *frame, instr ssa.Instruction) continuation {
 				e.runtimePanic("invalid memory address or nil pointer dereference")
 			}
 			a := (*x).(Array)
+			if sp := e.symElemPtr(instr, []Value(a), idx); sp != nil {
+				fr.env[instr] = sp
+				break
+			}
 			i := e.indexIn(idx, instr.Index.Type(), len(a))
 			fr.env[instr] = &a[i]
 		default:
@@ -485,9 +497,13 @@ func (e *Exec) callSSA(caller *frame, callpos token.Pos, fn *ssa.Function, args 
 		if st, ok := e.stubs[name]; ok {
 			return e.call(caller, callpos, st, args)
 		}
-		if in, ok := intrinsics[name]; ok {
+		if in, ok := intrinsics[name]; ok && e.forceBody == 0 {
 			e.noteFn(name + " (intrinsic)")
 			return in(e, caller, fn, args)
+		}
+		if e.forceBody > 0 {
+			e.forceBody = 0 // only the outermost call is forced to its body
+			defer func() { e.forceBody = 1 }()
 		}
 		if o := fn.Origin(); o != nil {
 			if in, ok := intrinsics[o.String()]; ok {
@@ -771,5 +787,70 @@ func (e *Exec) curFrame() *frame {
 func (e *Exec) noteFn(name string) {
 	if e.fnSeen != nil {
 		e.fnSeen[name] = true
+	}
+}
+
+// symPtr is &a[i] for a symbolic index i into a table of scalars: a load is one
+// ite term over the cells, a store a conditional update of every cell. It only
+// exists when every use of the IndexAddr is a load or a store through it.
+type symPtr struct {
+	cells []Value
+	idx   *smt.Term // 64-bit, known to be in range on this path
+}
+
+func (e *Exec) symElemPtr(instr *ssa.IndexAddr, cells []Value, idx *smt.Term) *symPtr {
+	if idx.IsConst() || len(cells) == 0 || len(cells) > 1024 {
+		return nil
+	}
+	w := -1
+	for _, c := range cells {
+		t, ok := c.(*smt.Term)
+		if !ok || (w >= 0 && t.W != w) {
+			return nil
+		}
+		w = t.W
+	}
+	refs := instr.Referrers()
+	if refs == nil {
+		return nil
+	}
+	for _, r := range *refs {
+		switch r := r.(type) {
+		case *ssa.UnOp:
+			if r.Op != token.MUL {
+				return nil
+			}
+		case *ssa.Store:
+			if r.Addr != ssa.Value(instr) || r.Val == ssa.Value(instr) {
+				return nil
+			}
+		case *ssa.DebugRef:
+		default:
+			return nil
+		}
+	}
+	i64 := e.toWidth(idx, instr.Index.Type(), 64)
+	if !e.decide(e.c.Cmp(smt.KUlt, i64, e.mkInt(int64(len(cells))))) {
+		e.runtimePanic(fmt.Sprintf("index out of range [symbolic] with length %d", len(cells)))
+	}
+	return &symPtr{cells: cells, idx: i64}
+}
+
+func (e *Exec) symLoad(sp *symPtr) Value {
+	var build func(lo, hi int) *smt.Term
+	build = func(lo, hi int) *smt.Term {
+		if hi-lo == 1 {
+			return sp.cells[lo].(*smt.Term)
+		}
+		mid := (lo + hi) / 2
+		return e.c.Ite(e.c.Cmp(smt.KUlt, sp.idx, e.mkInt(int64(mid))), build(lo, mid), build(mid, hi))
+	}
+	return build(0, len(sp.cells))
+}
+
+func (e *Exec) symStore(sp *symPtr, v Value) {
+	t := v.(*smt.Term)
+	for i := range sp.cells {
+		sp.cells[i] = e.c.Ite(e.c.Eq(sp.idx, e.mkInt(int64(i))), t, sp.cells[i].(*smt.Term))
 	}
 }
